@@ -261,7 +261,7 @@ private:
     size_t sizeOfMemoryWithCorruptionInfo(size_t size);
     MemoryLeakDetectorNode* getNodeFromMemoryPointer(char* memory, size_t size);
 
-    char* reallocateMemoryAndLeakInformation(TestMemoryAllocator* allocator, char* memory, size_t size, const char* file, size_t line, bool allocatNodesSeperately);
+    char* reallocateMemoryAndLeakInformation(TestMemoryAllocator* allocator, char* memory, size_t size, const char* file, size_t line, bool allocatNodesSeperately, MemoryLeakDetectorNode* separateNode);
 
     void addMemoryCorruptionInformation(char* memory);
     void checkForCorruption(MemoryLeakDetectorNode* node, const char* file, size_t line, TestMemoryAllocator* allocator, bool allocateNodesSeperately);
